@@ -7,6 +7,7 @@ import (
 	"os"
 	"path/filepath"
 
+	"github.com/google/reftable"
 	"verif/harness/gen"
 	"verif/harness/rep"
 	"verif/harness/rtx"
@@ -114,6 +115,8 @@ func RunC17(c *Ctx) {
 	} else {
 		r.Note("export wrapper for suggestCompactionSegment does not compile on this tree: chooser checked only through real stacks")
 	}
+	// ---- (c) real stacks around class boundaries
+	runC17Stacks(c)
 	// ---- (b) workloads
 	nw := len(c17Fixed) + c.N(12, 60)
 	for w := 0; w < nw; w++ {
@@ -347,4 +350,149 @@ func dirSizes(dir string, names []string) []int64 {
 		}
 	}
 	return out
+}
+
+// ---- (c) the "nothing to do exactly when ..." clause on real stacks -----------------
+
+// c17TableOfSize commits one table (a single symref whose target length steers the byte
+// size) through NewAddition/Commit, which does not auto-compact.
+func c17Commit(st *reftable.Stack, id int, targetLen int) error {
+	return rtx.Safe(func() error {
+		add, err := st.NewAddition()
+		if err != nil {
+			return err
+		}
+		defer add.Close()
+		ui := st.NextUpdateIndex()
+		err = add.Add(func(w *reftable.Writer) error {
+			w.SetLimits(ui, ui)
+			tgt := make([]byte, targetLen)
+			for i := range tgt {
+				tgt[i] = byte('a' + (i+id)%26)
+			}
+			return w.AddRef(&reftable.RefRecord{RefName: fmt.Sprintf("refs/heads/t%05d", id), UpdateIndex: ui, Target: string(tgt)})
+		})
+		if err != nil {
+			return err
+		}
+		return add.Commit()
+	})
+}
+
+// runC17Stacks: stacks built without auto-compaction from tables whose sizes sit on and
+// around power-of-two boundaries; then AutoCompact. Oracle: size class of a table =
+// floor(log2(file size - header - footer + 1)) (the bytes of its blocks, never 0);
+// AutoCompact must attempt a compaction iff two adjacent tables share a class, and an
+// attempt that succeeds must strictly reduce the table count over a contiguous range.
+func runC17Stacks(c *Ctx) {
+	r := c.Rep
+	n := c.N(400, 8000)
+	for idx := 0; idx < n; idx++ {
+		if !c.Mine(idx) {
+			continue
+		}
+		rng := gen.NewRng(gen.Mix(c.Seed^0x17c, int64(idx)))
+		gcfg := gen.Cfg{SHA256: idx%2 == 1}
+		if idx%5 == 4 {
+			gcfg.Unaligned = true
+		}
+		cfg := rtx.Config(gcfg)
+		hdr, ftr := 24, 68
+		if gcfg.SHA256 {
+			hdr, ftr = 28, 72
+		}
+		dir := c.TempDir(fmt.Sprintf("c17s-%d", idx))
+		st, err := stx.Open(dir, cfg)
+		if err != nil {
+			os.RemoveAll(dir)
+			continue
+		}
+		ntab := 2 + rng.Intn(4)
+		// target lengths: around the class boundaries of the resulting table size
+		var sizes []int64
+		okc := true
+		for i := 0; i < ntab; i++ {
+			k := 7 + rng.Intn(5) // class boundary 2^k
+			base := 1 << uint(k)
+			// a table with target length L has corrected size ~ L + 40; aim near the boundary
+			L := base - 46 + rng.Intn(14)
+			if rng.Chance(0.3) {
+				L = base/2 + rng.Intn(base/2)
+			}
+			if L < 1 {
+				L = 1
+			}
+			if i > 0 && rng.Chance(0.35) {
+				// repeat (about) the previous size: adjacent tables of one class
+				L = int(sizes[len(sizes)-1]) - 40 + rng.Intn(3) - 1
+				if L < 1 {
+					L = 1
+				}
+			}
+			if err := c17Commit(st, i, L); err != nil {
+				okc = false
+				break
+			}
+			names := stx.Names(st)
+			fi, err := os.Stat(filepath.Join(dir, names[len(names)-1]))
+			if err != nil {
+				okc = false
+				break
+			}
+			sizes = append(sizes, fi.Size()-int64(hdr)-int64(ftr)+1)
+		}
+		if !okc {
+			stx.SafeClose(st)
+			os.RemoveAll(dir)
+			r.Inconclusive++
+			continue
+		}
+		var classes []int
+		var usz []uint64
+		for _, s := range sizes {
+			classes = append(classes, flog2(uint64(s)))
+			usz = append(usz, uint64(s))
+		}
+		want := adjacentSameClass(usz)
+		before := stx.Names(st)
+		att0, fail0 := st.Stats.Attempts, st.Stats.Failures
+		aerr := rtx.Safe(func() error { return st.AutoCompact() })
+		after := stx.Names(st)
+		attempted := st.Stats.Attempts > att0
+		r.Evaluations++
+		cs := map[string]interface{}{"prop": "C17", "kind": "stack", "seed": c.Seed, "index": idx, "sha256": gcfg.SHA256, "block_byte_sizes": sizes, "classes": classes}
+		switch {
+		case aerr != nil:
+			r.Violate([]string{"C17", "C04"}, "stack-autocompact-error|"+errClass(aerr), fmt.Sprintf("AutoCompact failed on a single-handle stack: %v %s", aerr, PanicDetail(aerr)), cs)
+		case attempted && !want:
+			r.Violate([]string{"C17"}, "stack-compacts-without-equal-class-neighbours", fmt.Sprintf("table sizes %v (classes %v): AutoCompact compacted although no two adjacent tables share a size class (%d -> %d tables)", sizes, classes, len(before), len(after)), cs)
+		case !attempted && want:
+			r.Violate([]string{"C17"}, "stack-nothing-to-do-despite-equal-class-neighbours", fmt.Sprintf("table sizes %v (classes %v): AutoCompact reported nothing to do although two adjacent tables share a size class", sizes, classes), cs)
+		case attempted && st.Stats.Failures == fail0 && len(after) >= len(before):
+			r.Violate([]string{"C17"}, "stack-autocompaction-no-progress", fmt.Sprintf("table sizes %v: AutoCompact ran but the stack went from %d to %d tables", sizes, len(before), len(after)), cs)
+		case attempted && !contiguousRemoval(before, after):
+			r.Violate([]string{"C17"}, "stack-autocompaction-non-contiguous", fmt.Sprintf("before %v after %v", before, after), cs)
+		}
+		// boundary cases are the non-trivial ones: some table within 6 bytes of a power of two
+		near := false
+		for _, s := range sizes {
+			for k := uint(6); k < 14; k++ {
+				if d := s - int64(1)<<k; d >= -6 && d <= 6 {
+					near = true
+				}
+			}
+		}
+		if near || want {
+			r.Nontrivial(rep.Hash("c17s", fmt.Sprint(c.Seed), fmt.Sprint(idx)))
+		}
+		r.Count("stacks_checked", 1)
+		if near {
+			r.Count("stacks_with_a_table_within_6_bytes_of_a_class_boundary", 1)
+		}
+		if idx%97 == 0 {
+			r.Sample(map[string]interface{}{"kind": "stack", "sizes": sizes, "classes": classes, "expect_compaction": want, "attempted": attempted, "tables_after": len(after)})
+		}
+		stx.SafeClose(st)
+		os.RemoveAll(dir)
+	}
 }
